@@ -220,7 +220,7 @@ def run(ctx):
         runs.append(('X 3 40 %d %d cap=2 k=2 multi spare=0' % (big, hc), (0, 2), 2))
         runs.append(('X 3 40 %d %d cap=1 k=2 multi spare=1' % (big, hc), (0, 2), 1))
     # T2: random walks, many more items than the MC bound
-    nw = 4000 if ctx.thorough else 120
+    nw = 2000 if ctx.thorough else 120
     runs.append(('W 2 400 %d %d 0 cap=4 k=64 spare=64' % (nw, ctx.seed + 1), (0,), 4))
     runs.append(('W 2 400 %d %d 0 cap=2 k=64 spare=64 eager' % (nw // 2, ctx.seed + 2), (0,), 2))
     runs.append(('W 3 400 %d %d 0 cap=2 k=16 spare=16 multi' % (nw // 2, ctx.seed + 3), (0, 2), 2))
